@@ -12,7 +12,8 @@ Proof. vm_compute. reflexivity. Qed.
 Example C10_forms_count : Z.of_nat (length forms) = 1286 /\ forms_count = 1286.
 Proof. split; vm_compute; reflexivity. Qed.
 
-(* value-level behaviour of the BigUint / BigInt-by-BigInt operations owned by the other areas *)
+(* value-level behaviour of the BigUint / BigInt-by-BigInt operations owned by the other areas
+   ([big_ops_ok] is proved for the digit-level models in InstFormsOps.big_ops_digit_ok) *)
 Record big_ops := {
   bo_uop : opk -> Z -> Z -> outcome Z;      (* BigUint (op) BigUint leaves *)
   bo_uop_s : opk -> Z -> Z -> outcome Z;    (* BigUint (op) uN, (op)= uN *)
@@ -25,15 +26,18 @@ Record big_ops := {
 Record big_ops_ok (p : big_ops) : Prop := {
   H_ubigbig : forall o x y, bigbig8 o = true -> 0 <= x -> 0 <= y -> bo_uop p o x y = zsem FamU o x y;
   H_ibigbig : forall o x y, bigbig8 o = true -> bo_iop p o x y = zsem FamI o x y;
-  H_uadd_scalar : forall x s, 0 <= x -> 0 <= s -> bo_uop_s p OpAdd x s = zsem FamU OpAdd x s;
-  H_usub_scalar : forall x s, 0 <= x -> 0 <= s -> bo_uop_s p OpSub x s = zsem FamU OpSub x s;
-  H_umul_scalar : forall x s, 0 <= x -> 0 <= s -> bo_uop_s p OpMul x s = zsem FamU OpMul x s;
-  H_udivrem_scalar : forall x s, 0 <= x -> 0 <= s ->
+  (* s: the value of a primitive scalar, below 2^128 *)
+  H_uadd_scalar : forall x s, 0 <= x -> 0 <= s < 2 ^ 128 -> bo_uop_s p OpAdd x s = zsem FamU OpAdd x s;
+  H_usub_scalar : forall x s, 0 <= x -> 0 <= s < 2 ^ 128 -> bo_uop_s p OpSub x s = zsem FamU OpSub x s;
+  H_umul_scalar : forall x s, 0 <= x -> 0 <= s < 2 ^ 128 -> bo_uop_s p OpMul x s = zsem FamU OpMul x s;
+  H_udivrem_scalar : forall x s, 0 <= x -> 0 <= s < 2 ^ 128 ->
       bo_uop_s p OpDiv x s = zsem FamU OpDiv x s /\ bo_uop_s p OpRem x s = zsem FamU OpRem x s;
-  H_scalar_usub : forall s x, 0 <= x -> 0 <= s -> bo_s_uop p OpSub s x = zsem FamU OpSub s x;
-  H_scalar_udivrem : forall s x, 0 <= x -> 0 <= s ->
+  H_scalar_usub : forall s x, 0 <= x -> 0 <= s < 2 ^ 128 -> bo_s_uop p OpSub s x = zsem FamU OpSub s x;
+  H_scalar_udivrem : forall s x, 0 <= x -> 0 <= s < 2 ^ 128 ->
       bo_s_uop p OpDiv s x = zsem FamU OpDiv s x /\ bo_s_uop p OpRem s x = zsem FamU OpRem s x;
-  H_ushift : forall o x k, (o = OpShl \/ o = OpShr) -> 0 <= x -> bo_ushift p o x k = zsem FamU o x k;
+  (* shifts: inside the physical range of C07 (FormsLeavesProofs.shift_phys) *)
+  H_ushift : forall o x k, (o = OpShl \/ o = OpShr) -> 0 <= x -> shift_phys o x k ->
+      bo_ushift p o x k = zsem FamU o x k;
   H_upow_scalar : forall x e, 0 <= x -> 0 <= e -> e < 2 ^ 128 -> bo_upow_s p x e = zsem FamU OpPow x e;
   H_upow_big : forall x e, 0 <= x -> 0 <= e -> bo_upow_b p x e = zsem FamU OpPow x e
 }.
@@ -44,27 +48,117 @@ Definition leafc_of (p : big_ops) (f : form) (x y : Z) : outcome (option Z) :=
 
 Lemma leaf_of_ok p : big_ops_ok p -> forall f x y,
   is_arith_role (f_role f) = true -> f_shape f = SLeaf -> known_leaf f = true ->
-  in_oty (k_ty (f_lhs f)) x -> in_oty (k_ty (f_rhs f)) y ->
+  in_oty (k_ty (f_lhs f)) x -> in_oty (k_ty (f_rhs f)) y -> shift_phys (f_op f) x y ->
   leaf_of p f x y = zsem (fam f) (f_op f) x y.
 Proof.
-  intros [] f x y Hr _ Hk Hx Hy. unfold leaf_of. apply leaf_model_sound; assumption.
+  intros [] f x y Hr _ Hk Hx Hy Hph. unfold leaf_of. apply leaf_model_sound; assumption.
 Qed.
 
-(* every binary / compound-assignment form of the table, whatever the capacity test answers *)
-Theorem forms_agree p (orc : form -> Z -> Z -> bool) :
+(* ---- the reference the forms are compared with -------------------------------------------------
+   For every operator except the two shifts: the Z-level ref-ref semantics [zsem].  For `<<` / `>>`:
+   the reference leaf itself (`biguint_shl/shr::<T>(Cow<BigUint>, T)` for BigUint, its sign wrapper
+   of src/bigint/shift.rs for BigInt), which IS [zsem] inside the physical range [shift_phys]
+   ([sem_ref_zsem]) and a capacity-overflow panic beyond it — in every form alike. *)
+Definition is_shift (o : opk) : bool := match o with OpShl | OpShr => true | _ => false end.
+Definition sem_ref (p : big_ops) (b : bigty) (o : opk) (x y : Z) : outcome Z :=
+  match o with
+  | OpShl => match b with
+             | FamU => bo_ushift p OpShl x y
+             | FamI => FormsLeaves.ishl (bo_ushift p) x y
+             end
+  | OpShr => match b with
+             | FamU => bo_ushift p OpShr x y
+             | FamI => FormsLeaves.ishr (bo_uop_s p) (bo_ushift p) x y
+             end
+  | _ => zsem b o x y
+  end.
+
+Lemma sem_ref_nonshift p b o x y : is_shift o = false -> sem_ref p b o x y = zsem b o x y.
+Proof. destruct o; simpl; intros; try discriminate; reflexivity. Qed.
+
+Lemma sem_ref_zsem p : big_ops_ok p -> forall b o x y,
+  in_oty (OBig b) x -> shift_phys o x y -> sem_ref p b o x y = zsem b o x y.
+Proof.
+  intros Hp b o x y Hx Hph.
+  destruct (is_shift o) eqn:Es; [|apply sem_ref_nonshift; assumption].
+  destruct Hp. destruct o; try discriminate; destruct b; cbn [sem_ref in_oty] in *.
+  - apply H_ushift0; auto.
+  - eapply leaf_ishl_spec; eauto.
+  - apply H_ushift0; auto.
+  - eapply leaf_ishr_spec; eauto.
+Qed.
+
+Lemma sem_ref_comm p b o x y : commutative o = true -> sem_ref p b o x y = sem_ref p b o y x.
+Proof.
+  intros Hc. rewrite !sem_ref_nonshift by (destruct o; try discriminate; reflexivity).
+  apply zsem_comm; assumption.
+Qed.
+
+Lemma leaf_of_ref p : big_ops_ok p -> forall f x y,
+  is_arith_role (f_role f) = true -> f_shape f = SLeaf -> known_leaf f = true ->
+  in_oty (k_ty (f_lhs f)) x -> in_oty (k_ty (f_rhs f)) y ->
+  leaf_of p f x y = sem_ref p (fam f) (f_op f) x y.
+Proof.
+  intros Hp f x y Hr Hs Hk Hx Hy.
+  destruct (is_shift (f_op f)) eqn:Es.
+  - (* a shift leaf is `big (<<|>>) scalar`: the reference leaf itself *)
+    clear Hp Hx Hy Hs. destruct f as [r o [tl rl] [tr rr] sh].
+    unfold known_leaf, leaf_of, leaf_model, fam in *. cbn [f_role f_op f_lhs f_rhs k_ty k_ref] in *.
+    destruct o; try discriminate;
+      destruct r; try discriminate;
+      destruct tl as [[|]|sl], tr as [[|]|sr]; simpl in Hk; rewrite ?andb_false_r in Hk;
+      try discriminate; reflexivity.
+  - rewrite sem_ref_nonshift by assumption. apply leaf_of_ok; try assumption.
+    destruct (f_op f); try discriminate; exact I.
+Qed.
+
+(* every shift row has the big operand on the left *)
+Lemma shift_rows_lhs_big :
+  forallb (fun f => negb (is_shift (f_op f)) ||
+                    match k_ty (f_lhs f) with OBig _ => true | OSc _ => false end) forms = true.
+Proof. vm_compute. reflexivity. Qed.
+
+Lemma shift_row_lhs f : In f forms -> is_shift (f_op f) = true -> k_ty (f_lhs f) = OBig (fam f).
+Proof.
+  intros Hin Es. pose proof shift_rows_lhs_big as H. rewrite forallb_forall in H. specialize (H f Hin).
+  rewrite Es in H. cbn [negb orb] in H. unfold fam. destruct (k_ty (f_lhs f)); [reflexivity|discriminate].
+Qed.
+
+(* every binary / compound-assignment form of the table, whatever the capacity test answers,
+   for ALL operand values: equal to the reference (for shifts: to the reference leaf, panics
+   included) *)
+Theorem forms_agree_ref p (orc : form -> Z -> Z -> bool) :
   big_ops_ok p ->
   forall f, In f forms -> is_arith_role (f_role f) = true ->
   forall x y, in_oty (k_ty (f_lhs f)) x -> in_oty (k_ty (f_rhs f)) y ->
-  eval_form (leaf_of p) forms orc f x y = zsem (fam f) (f_op f) x y.
+  eval_form (leaf_of p) forms orc f x y = sem_ref p (fam f) (f_op f) x y.
 Proof.
   intros Hp f Hin Hr x y Hx Hy.
   apply form_sound; try assumption.
-  - intros; apply zsem_comm; assumption.
-  - apply leaf_of_ok; assumption.
+  - intros; apply sem_ref_comm; assumption.
+  - apply leaf_of_ref; assumption.
   - pose proof C10_all_forms as H. rewrite forallb_forall in H. apply H; assumption.
 Qed.
 
+(* ... hence to the Z-level semantics; the two shift operators inside their physical range *)
+Theorem forms_agree p (orc : form -> Z -> Z -> bool) :
+  big_ops_ok p ->
+  forall f, In f forms -> is_arith_role (f_role f) = true ->
+  forall x y, in_oty (k_ty (f_lhs f)) x -> in_oty (k_ty (f_rhs f)) y -> shift_phys (f_op f) x y ->
+  eval_form (leaf_of p) forms orc f x y = zsem (fam f) (f_op f) x y.
+Proof.
+  intros Hp f Hin Hr x y Hx Hy Hph.
+  rewrite forms_agree_ref by assumption.
+  destruct (is_shift (f_op f)) eqn:Es; [|apply sem_ref_nonshift; assumption].
+  apply sem_ref_zsem; try assumption.
+  rewrite <- (shift_row_lhs f Hin Es). exact Hx.
+Qed.
+
 (* checked_add / checked_sub / checked_mul / checked_div: Some(ref-ref result), None exactly where it panics *)
+Lemma checked_rows_nonshift :
+  forallb (fun f => negb (role_eqb (f_role f) RChecked) || negb (is_shift (f_op f))) forms = true.
+Proof. vm_compute. reflexivity. Qed.
+
 Theorem checked_agree p (orc : form -> Z -> Z -> bool) :
   big_ops_ok p ->
   forall f, In f forms -> f_role f = RChecked ->
@@ -72,15 +166,21 @@ Theorem checked_agree p (orc : form -> Z -> Z -> bool) :
   eval_checked (leaf_of p) forms orc (leafc_of p) f x y = checked_of (zsem (fam f) (f_op f) x y).
 Proof.
   intros Hp f Hin Hr x y Hx Hy.
-  apply checked_sound with (sem := zsem); try assumption.
-  - intros; apply zsem_comm; assumption.
-  - apply leaf_of_ok; assumption.
-  - apply zsem_total.
-  - apply zsem_divzero.
+  assert (Hns : is_shift (f_op f) = false).
+  { pose proof checked_rows_nonshift as H. rewrite forallb_forall in H. specialize (H f Hin).
+    rewrite Hr in H. simpl in H. destruct (is_shift (f_op f)); [discriminate|reflexivity]. }
+  rewrite <- (sem_ref_nonshift p) by assumption.
+  apply checked_sound with (sem := sem_ref p); try assumption.
+  - intros; apply sem_ref_comm; assumption.
+  - apply leaf_of_ref; assumption.
+  - intros b o a c Hn Ha Hc. rewrite sem_ref_nonshift by (destruct o; try discriminate; reflexivity).
+    apply zsem_total; assumption.
+  - intros b o a c Hn Ha Hc. rewrite sem_ref_nonshift by (destruct o; try discriminate; reflexivity).
+    apply zsem_divzero; assumption.
   - intros g a b Gr Gs Gk Ha Hb. unfold known_leaf in Gk; rewrite Gr in Gk.
     apply andb_true_iff in Gk; destruct Gk as [Go Gf].
     apply opk_eqb_eq in Go; apply bigty_eqb_eq in Gf. rewrite Go, Gf in *. simpl in Ha, Hb.
-    unfold leafc_of, uchecked_sub_model.
+    cbn [sem_ref]. unfold leafc_of, uchecked_sub_model.
     destruct Hp as [Hub _ _ _ _ _ _ _ _ _ _]. rewrite Hub by (auto; lia). simpl.
     destruct (Z.compare_spec a b); destruct (Z.ltb_spec a b); try lia; try reflexivity.
     simpl. f_equal. f_equal. lia.
@@ -116,13 +216,14 @@ Proof.
     pose proof El as El'. unfold lookup in El'. apply find_some in El'. destruct El' as [Gin _].
     pose proof (Hall g Gin) as Hcg. unfold check_form in Hcg. rewrite Gr in Hcg. exact Hcg. }
   assert (Hinit : in_oty (OBig b) init) by (destruct b; simpl; [destruct Hcase as [[_ ->]|[_ ->]]; lia | exact I]).
-  rewrite (fold_sound zsem (leaf_of p) forms orc) with (b := b) (init := init) (o := f_op f) (g := g); try assumption.
+  rewrite (fold_sound (sem_ref p) (leaf_of p) forms orc) with (b := b) (init := init) (o := f_op f) (g := g); try assumption.
   - unfold fold_sem. destruct Hcase as [[-> _]|[-> _]]; [apply zsum_spec | apply zproduct_spec].
-  - intros; apply zsem_comm; assumption.
-  - apply leaf_of_ok; assumption.
+  - intros; apply sem_ref_comm; assumption.
+  - apply leaf_of_ref; assumption.
   - intros x y v Hx Hy E. apply (zsem_closed_add_mul b (f_op f) (k_ty kt) x y v); try assumption.
     + destruct Hcase as [[-> _]|[-> _]]; auto.
     + intros Eb'; apply Hpos; assumption.
+    + rewrite <- E. symmetry. apply sem_ref_nonshift. destruct Hcase as [[-> _]|[-> _]]; reflexivity.
 Qed.
 
 (* the hypotheses are satisfiable: the Z-level operations themselves (this is the instance the
